@@ -55,7 +55,7 @@ def run_P(pid, tier, world):
     eng = Engine(world)
     reports = []
     for tgt, c in world.contracts.items():
-        if pid not in c.props or c.trusted:
+        if pid not in c.props or c.trusted or getattr(c, 'bounded_only', False):
             continue
         for t in [c.target] + c.also:
             reports.append(eng.verify(c, t))
@@ -68,58 +68,133 @@ def run_P(pid, tier, world):
 
 
 # ----------------------------------------------------------------------------- layer B
-def run_B(pid, tier, seed, world, modname, budget_s):
-    from pyvc import rt
-    from specs.twins import TWINS
-    mod = importlib.import_module(modname)
-    only = getattr(mod, "CONTRACT_PROPS", [pid])
-    rt.instrument(world, TWINS, only_props=only)
-    rt.REC.reset()
-    rt.REC.calls.clear()
-    evaluations = 0
-    distinct = set()
-    samples = []
-    found = []
-    t0 = time.time()
-    exhaustive = True
+CASE_TIMEOUT_S = int(os.environ.get("VERIF_CASE_TIMEOUT", "20"))
+
+
+def _b_worker(modname, pid, tier, seed, w, W, start_from, t_end, outq):
+    """Runs cases idx with idx % W == w and idx >= start_from; streams results."""
     try:
-        for case in mod.cases(tier, seed):
-            if time.time() - t0 > budget_s:
-                exhaustive = False
+        from pyvc import rt
+        from pyvc.run import load_world
+        from specs.twins import TWINS
+        world = load_world()
+        mod = importlib.import_module(modname)
+        rt.instrument(world, TWINS, only_props=getattr(mod, "CONTRACT_PROPS", [pid]))
+        for idx, case in enumerate(mod.cases(tier, seed)):
+            if idx % W != w or idx < start_from:
+                continue
+            if time.time() > t_end:
+                outq.put(("budget", w, idx))
                 break
-            evaluations += 1
-            rt.REC.context = mod.describe(case)
-            before = len(rt.REC.violations)
+            desc = mod.describe(case)
+            icls = mod.input_class(case) if hasattr(mod, "input_class") else ""
+            outq.put(("start", w, idx, desc, icls))
+            rt.REC.reset()
+            rt.REC.context = None
             extra = []
             try:
                 result = mod.run_case(case)
-            except Exception as e:   # an exception escaping the real function is itself an observation
+            except Exception as e:   # an exception escaping the driver is itself an observation
                 result = ("raised", type(e).__name__, str(e)[:200])
                 if not getattr(mod, "EXCEPTIONS_EXPECTED", False):
                     extra.append({"key": f"{modname}/escaped:{type(e).__name__}", "detail": traceback.format_exc(limit=4)})
-            if hasattr(mod, "post_check"):
-                extra += mod.post_check(case, result) or []
-            for v in rt.REC.violations[before:]:
-                found.append({"key": v.key(), "text": v.text, "detail": v.detail, "case": mod.describe(case),
-                              "call": v.call[1] if v.call else None,
-                              "input_class": mod.input_class(case) if hasattr(mod, "input_class") else ""})
-            for x in extra:
-                x.setdefault("case", mod.describe(case))
-                x.setdefault("input_class", mod.input_class(case) if hasattr(mod, "input_class") else "")
-                found.append(x)
             try:
-                if mod.nontrivial(case, result):
-                    distinct.add(json.dumps(mod.describe(case), sort_keys=True, default=str))
-                    if len(samples) < 5:
-                        samples.append({"case": mod.describe(case), "result": rt._short(result)})
+                if hasattr(mod, "post_check"):
+                    extra += mod.post_check(case, result) or []
+            except Exception as e:
+                extra.append({"key": f"{modname}/oracle-error:{type(e).__name__}", "detail": traceback.format_exc(limit=4)})
+            found = [{"key": v.key(), "text": v.text, "detail": v.detail, "call": v.call[1] if v.call else None}
+                     for v in rt.REC.violations] + extra
+            try:
+                nt = bool(mod.nontrivial(case, result))
             except Exception:
-                pass
-    finally:
-        rt.uninstrument()
+                nt = False
+            outq.put(("done", w, idx, found, nt, rt._short(result, 300) if nt else "", dict(rt.REC.calls)))
+        outq.put(("end", w))
+    except Exception:
+        outq.put(("crash", w, traceback.format_exc(limit=6)))
+
+
+def run_B(pid, tier, seed, world, modname, budget_s):
+    import multiprocessing as mp
+    import queue as _q
+    mod = importlib.import_module(modname)
+    ctx = mp.get_context("fork")
+    W = int(os.environ.get("VERIF_PROCS", "0")) or min(12, os.cpu_count() or 4)
+    W = min(W, getattr(mod, "MAX_WORKERS", W))
+    outq = ctx.Queue()
+    t0 = time.time()
+    t_end = t0 + budget_s
+    procs, current, alive = {}, {}, set()
+
+    def spawn(w, start_from):
+        p = ctx.Process(target=_b_worker, args=(modname, pid, tier, seed, w, W, start_from, t_end, outq), daemon=True)
+        p.start()
+        procs[w] = p
+        alive.add(w)
+        current.pop(w, None)
+
+    for w in range(W):
+        spawn(w, 0)
+    evaluations, distinct, samples, found, calls = 0, set(), [], [], {}
+    exhaustive, crashes = True, []
+    while alive:
+        try:
+            msg = outq.get(timeout=1.0)
+        except _q.Empty:
+            msg = None
+        now = time.time()
+        if msg is not None:
+            kind, w = msg[0], msg[1]
+            if kind == "start":
+                current[w] = (msg[2], msg[3], msg[4], now)
+            elif kind == "done":
+                _, _, idx, vs, nt, short, cc = msg
+                cur = current.pop(w, None)
+                evaluations += 1
+                desc, icls = (cur[1], cur[2]) if cur else (None, "")
+                for v in vs:
+                    v.setdefault("case", desc)
+                    v.setdefault("input_class", icls)
+                    found.append(v)
+                if nt:
+                    distinct.add(hashlib.sha1(json.dumps(desc, sort_keys=True, default=str).encode()).hexdigest())
+                    if len(samples) < 4:
+                        samples.append({"case": desc, "result": short})
+                for k, n_ in cc.items():
+                    calls[k] = max(calls.get(k, 0), n_)
+            elif kind == "budget":
+                exhaustive = False
+            elif kind == "end":
+                alive.discard(w)
+            elif kind == "crash":
+                crashes.append(msg[2])
+                alive.discard(w)
+        # watchdog
+        for w in list(alive):
+            cur = current.get(w)
+            if cur and now - cur[3] > CASE_TIMEOUT_S:
+                procs[w].kill()
+                procs[w].join(1)
+                evaluations += 1
+                found.append({"key": f"{modname}/hang:case-exceeded-{CASE_TIMEOUT_S}s", "detail": "the real code did not return / starved the event loop",
+                              "case": cur[1], "input_class": cur[2]})
+                if time.time() < t_end:
+                    spawn(w, cur[0] + 1)
+                else:
+                    alive.discard(w)
+                    exhaustive = False
+            elif not procs[w].is_alive() and outq.empty():
+                alive.discard(w)
+    for p in procs.values():
+        if p.is_alive():
+            p.kill()
+    if crashes:
+        raise RuntimeError("bounded worker crashed:\n" + crashes[0])
     return {
         "module": modname, "evaluations": evaluations, "distinct_nontrivial": len(distinct),
         "samples": samples, "violations": found, "exhaustive": exhaustive,
-        "wall_s": round(time.time() - t0, 2), "contract_calls": dict(rt.REC.calls),
+        "wall_s": round(time.time() - t0, 2), "contract_calls": calls,
         "bound": getattr(mod, "BOUND", ""), "rule": getattr(mod, "RULE", ""),
     }
 
